@@ -10,6 +10,7 @@
 //!   neq|neqi|ncmp|ccmp|ccmpi|lccmp <wire> <wire>   flat names (i = iterator path)
 //!   nhash <wire>
 //!   peq|pcmp <msg> <pos> <wire>, phash <msg> <pos>   name parsed at pos
+//!   psuf <msg> <pos> <k> <wire>    name parsed at pos, k x parent(): `Ok <eq> <cmp> <composed> <lc> <hash>`
 //!   cheq|chcmp|chlc <relwire> <abswire> <wire>        chain against a flat name
 //!   cseq|cscmp|csccmp <str> <str>, cshash <str>       CharStr
 //!   nsec <wire> <bitmap> <wire> <bitmap>              Nsec::canonical_cmp
@@ -25,7 +26,7 @@
 use bytes::Bytes;
 use domain::base::cmp::CanonicalOrd;
 use domain::base::iana::{Class, Rtype};
-use domain::base::message_builder::{StaticCompressor, TreeCompressor};
+use domain::base::message_builder::{HashCompressor, StaticCompressor, TreeCompressor};
 use domain::base::name::{Label, Name, OwnedLabel, ParsedName, RelativeName, ToName, ToRelativeName};
 use domain::base::rdata::{ComposeRecordData, ParseRecordData, UnknownRecordData};
 use domain::base::record::RecordHeader;
@@ -426,6 +427,119 @@ fn name_cases(out: &mut Out, r: &mut Rng, n: u64) {
     }
 }
 
+// ------------------------------------- names derived from parsed names
+
+/// the full battery on a derived ParsedName against the flat name with the same labels
+fn suffix_battery(out: &mut Out, how: &str, d: &ParsedName<Bytes>, labels: &Labels, other: &Labels, c: &str) {
+    let (fl, fo) = (flat(labels), flat(other));
+    let (d2, fl2, fo2) = (d.clone(), fl.clone(), fo.clone());
+    let r = catch(move || {
+        let (a, b) = (ops(&d2, &fo2), ops(&fl2, &fo2));
+        let (ra, rb) = (ops(&fo2, &d2), ops(&fo2, &fl2));
+        let same = ops(&d2, &fl2);
+        let mut comp = Vec::new(); d2.compose(&mut comp).unwrap();
+        let mut ccomp = Vec::new(); d2.compose_canonical(&mut ccomp).unwrap();
+        let cow = d2.to_cow();
+        let vecn: FName = d2.to_name();
+        (ops_s(&a), ops_s(&b), ops_s(&ra), ops_s(&rb), same.eq && same.cmp == Ordering::Equal && same.comp == Ordering::Equal && same.lcomp == Ordering::Equal,
+         d2 == fl2 && fl2 == d2 && d2.cmp(&d2.clone()) == Ordering::Equal, feed(&d2) == feed(&fl2), comp, ccomp, cow.as_slice().to_vec(), vecn.as_slice().to_vec(),
+         d2.label_count(), d2.iter().rev().count())
+    });
+    match r {
+        Err(e) => chk(out, false, &format!("repr_independent_parsed_suffix_panic_{}", how), c, &e),
+        Ok((a, b, ra, rb, same, opsame, hsame, comp, ccomp, cow, vecn, lc1, lc2)) => {
+            chk(out, a == b, &format!("repr_independent_parsed_suffix_ops_{}", how), c, &format!("{} vs flat {}", a, b));
+            chk(out, ra == rb, &format!("repr_independent_parsed_suffix_rhs_{}", how), c, &format!("{} vs flat {}", ra, rb));
+            chk(out, same && opsame, &format!("repr_independent_parsed_suffix_eq_{}", how), c, "the derived name is not ==/Equal to its flat equivalent");
+            chk(out, hsame, &format!("repr_independent_parsed_suffix_hash_{}", how), c, "");
+            let w = wire_abs(labels);
+            chk(out, comp == w && cow == w && vecn == w && ccomp == canon_wire(labels), &format!("repr_independent_parsed_suffix_compose_{}", how), c, &hex(&comp));
+            chk(out, lc1 == labels.len() + 1 && lc2 == lc1, &format!("repr_independent_parsed_suffix_labels_{}", how), c, "");
+        }
+    }
+}
+
+fn derived(out: &mut Out, pn: &ParsedName<Bytes>, n: &Labels, other: &Labels, c: &str) {
+    // iter_suffixes
+    let sufs: Vec<ParsedName<Bytes>> = match catch({ let p = pn.clone(); move || p.iter_suffixes().collect::<Vec<_>>() }) { Ok(v) => v, Err(e) => { chk(out, false, "repr_independent_parsed_suffix_panic_iter", c, &e); return; } };
+    chk(out, sufs.len() == n.len() + 1, "repr_independent_parsed_suffix_count", c, &format!("{}", sufs.len()));
+    for (k, s) in sufs.iter().enumerate() { if k <= n.len() { suffix_battery(out, "iter", s, &n[k..].to_vec(), other, &format!("{} suffix {}", c, k)); } }
+    // parent() steps
+    let mut p = pn.clone();
+    for k in 1..=n.len() {
+        let mut q = p.clone();
+        match catch(move || { let ok = q.parent(); (ok, q) }) { Ok((ok, q)) => { chk(out, ok, "repr_independent_parsed_suffix_count", c, "parent returned false early"); p = q; } Err(e) => { chk(out, false, "repr_independent_parsed_suffix_panic_parent", c, &e); return; } }
+        suffix_battery(out, "parent", &p, &n[k..].to_vec(), other, &format!("{} parent {}", c, k));
+    }
+    let mut q = p.clone(); chk(out, !q.parent(), "repr_independent_parsed_suffix_count", c, "parent of the root is true");
+    // split_first() steps
+    let mut p = pn.clone();
+    for k in 1..=n.len() {
+        let mut q = p.clone();
+        match catch(move || { let first = q.split_first().map(|r| r.as_slice().to_vec()); (first, q) }) {
+            Ok((first, q)) => { let mut want = vec![n[k - 1].len() as u8]; want.extend_from_slice(&n[k - 1]);
+                chk(out, first.as_deref() == Some(&want[..]), "repr_independent_parsed_suffix_split_label", c, &format!("{:?}", first.map(|f| hex(&f)))); p = q; }
+            Err(e) => { chk(out, false, "repr_independent_parsed_suffix_panic_split", c, &e); return; }
+        }
+        suffix_battery(out, "split", &p, &n[k..].to_vec(), other, &format!("{} split {}", c, k));
+    }
+}
+
+fn suffix_cases(out: &mut Out, r: &mut Rng, n: u64) {
+    for i in 0..n {
+        // a name with at least three labels; its suffixes are pushed first so that the
+        // compressors chain: a.b.c.d -> a + ptr -> (b + ptr -> (c.d))
+        let mut name = gen_name(r);
+        while name.len() < 3 || !valid(&name) { name = gen_name(r); if name.len() < 3 { name.push(gen_label(r)); name.push(gen_label(r)); name.push(gen_label(r)); } if !valid(&name) { name.clear(); } }
+        let j2 = r.range(2, name.len() as u64 - 1) as usize;   // 2 <= j2 < len
+        let j1 = r.range(1, j2 as u64 - 1) as usize;           // 1 <= j1 < j2
+        let other = if r.chance(1, 2) { near_name(r, &name[j1..].to_vec()) } else { near_name(r, &name) };
+        let owners = [name[j2..].to_vec(), name[j1..].to_vec(), name.clone()];
+        let which = i % 3;
+        let o2 = owners.clone();
+        let tgt = name.clone();
+        let built = catch(move || {
+            macro_rules! build { ($comp:expr) => {{
+                let mut mb = MessageBuilder::from_target($comp).unwrap().answer();
+                for o in o2.iter() { mb.push((flat(o), 7u32, domain::rdata::A::from_octets(1, 2, 3, 4))).ok()?; }
+                // a CNAME whose target is compressed against the chained owner
+                mb.push((flat(&o2[0]), 7u32, domain::rdata::Cname::new(flat(&tgt)))).ok()?;
+                Some(Bytes::from(mb.finish().into_target()))
+            }}; }
+            match which { 0 => build!(StaticCompressor::new(Vec::new())), 1 => build!(TreeCompressor::new(Vec::new())), _ => build!(HashCompressor::new(Vec::new())) }
+        });
+        let mbytes = match built { Ok(Some(b)) => b, _ => { out.count("suffix_unbuildable"); continue; } };
+        let c = format!("suffix {} {} other {}", ["static", "tree", "hash"][which as usize], hex(&mbytes), hex(&wire_abs(&other)));
+        out.begin(&c);
+        out.oracle_case(&c, true, "parsed_suffix");
+        let msg = match Message::from_octets(mbytes.clone()) { Ok(m) => m, Err(_) => { chk(out, false, "repr_independent_parsed_suffix_unparseable", &c, ""); continue; } };
+        let recs: Vec<_> = msg.answer().unwrap().filter_map(|rr| rr.ok()).collect();
+        if recs.len() != 4 { chk(out, false, "repr_independent_parsed_suffix_unparseable", &c, "records"); continue; }
+        let pn: ParsedName<Bytes> = recs[2].owner().deref_octets();
+        if !pn.is_compressed() { out.count("suffix_owner_not_compressed"); }
+        derived(out, &pn, &name, &other, &c);
+        if let Ok(Some(rec)) = recs[3].to_record::<domain::rdata::Cname<ParsedName<Bytes>>>() {
+            derived(out, &rec.data().cname().clone(), &name, &other, &format!("{} cname", c));
+        }
+    }
+    // hand-built messages (position known): T2 against the model, same battery
+    for _ in 0..n {
+        let a = gen_name(r);
+        let b = if r.chance(1, 6) { gen_name(r) } else { near_name(r, &a) };
+        let k = if a.is_empty() { 0 } else { r.below(a.len() as u64 + 1) as usize };
+        let (m, pos) = parsed_msg(r, &a, k);
+        let mb = Bytes::from(m.clone());
+        let pa = match parse_at(&mb, pos) { Some(p) => p, None => continue };
+        let steps = r.below(a.len() as u64 + 2) as usize;
+        let c = format!("psuf {} {} {} {}", hex(&m), pos, steps, hex(&wire_abs(&b)));
+        out.begin(&c);
+        let (p2, fb) = (pa.clone(), flat(&b));
+        let obs = catch(move || { let mut q = p2; for _ in 0..steps { q.parent(); } let o = ops(&q, &fb); format!("Ok {} {} {} {} {}", o.eq, ord(o.cmp), ord(o.comp), ord(o.lcomp), hex(&feed(&q))) });
+        out.case(&c, &obs.unwrap_or_else(|_| "Panic".into()), true, "psuf");
+        derived(out, &pa, &a, &b, &c);
+    }
+}
+
 // -------------------------------------------------------------- CharStr
 
 fn charstr_cases(out: &mut Out, r: &mut Rng, n: u64) {
@@ -508,8 +622,8 @@ fn gen_types(r: &mut Rng) -> Vec<u16> { let n = r.range(0, 5); (0..n).map(|_| *r
 fn gen_f(r: &mut Rng, k: &str) -> F {
     match k {
         "u8" => F::U8(if r.chance(1, 2) { r.below(4) as u8 } else { r.u8() }),
-        "u16" => F::U16(match r.below(3) { 0 => r.below(4) as u16, 1 => *r.pick(&[255u16, 256, 257, 0xFFFF, 0x8000]), _ => r.u16() }),
-        "u32" => F::U32(match r.below(3) { 0 => r.below(4) as u32, 1 => *r.pick(&[0x7FFF_FFFFu32, 0x8000_0000, 0xFFFF_FFFF, 0x100, 0xFF]), _ => r.u32() }),
+        "u16" => F::U16(match r.below(3) { 0 => r.below(4) as u16, 1 => *r.pick(&[0u16, 1, 255, 256, 257, 0x7FFF, 0x8000, 0x8001, 0xFFFE, 0xFFFF]), _ => r.u16() }),
+        "u32" => F::U32(match r.below(3) { 0 => r.below(4) as u32, 1 => *r.pick(&[0u32, 1, 0x7FFF_FFFE, 0x7FFF_FFFF, 0x8000_0000, 0x8000_0001, 0xFFFF_FFFE, 0xFFFF_FFFF, 0x100, 0xFF]), _ => r.u32() }),
         "a" => F::Fixed(r.bytes(4)), "aaaa" => F::Fixed(r.bytes(16)),
         "name" => F::Name(gen_name(r)),
         "str" => F::Str(gen_small(r, 0, 5)),
@@ -530,8 +644,8 @@ fn gen_f(r: &mut Rng, k: &str) -> F {
 fn near_f(r: &mut Rng, f: &F) -> F {
     match f {
         F::U8(x) => F::U8(match r.below(3) { 0 => x.wrapping_add(1), 1 => x.wrapping_sub(1), _ => r.u8() }),
-        F::U16(x) => F::U16(match r.below(4) { 0 => x.wrapping_add(1), 1 => x.wrapping_sub(1), 2 => x.swap_bytes(), _ => x ^ (1 << r.below(16)) }),
-        F::U32(x) => F::U32(match r.below(4) { 0 => x.wrapping_add(1), 1 => x.wrapping_sub(1), 2 => x.swap_bytes(), _ => x ^ (1 << r.below(32)) }),
+        F::U16(x) => F::U16(match r.below(6) { 0 => x.wrapping_add(1), 1 => x.wrapping_sub(1), 2 => x.swap_bytes(), 3 => x.wrapping_add(0x8000), 4 => x.wrapping_add(0x7FFF), _ => x ^ (1 << r.below(16)) }),
+        F::U32(x) => F::U32(match r.below(7) { 0 => x.wrapping_add(1), 1 => x.wrapping_sub(1), 2 => x.swap_bytes(), 3 => x.wrapping_add(0x8000_0000), 4 => x.wrapping_add(0x7FFF_FFFF), 5 => x.wrapping_add(0x8000_0001), _ => x ^ (1 << r.below(32)) }),
         F::Fixed(b) => { let mut c = b.clone(); let i = r.below(c.len() as u64) as usize; c[i] = if r.chance(1, 2) { c[i].wrapping_add(1) } else { r.u8() }; F::Fixed(c) }
         F::Name(n) => F::Name(near_name(r, n)),
         F::Str(s) => F::Str(near_octets(r, s, 0, 255)),
@@ -590,6 +704,11 @@ fn rdata_pair(out: &mut Out, tname: &str, rt: u16, x: &ZD, y: &ZD, c: &str) {
     chk(out, cc == ccr.reverse(), &format!("canonical_cmp_antisym_{}", tname), c, "");
     chk(out, eq == eqr, &format!("rdata_eq_sym_{}", tname), c, "");
     chk(out, (pc == Some(Ordering::Equal)) == eq, &format!("cmp_eq_inconsistent_{}", tname), c, &format!("eq={} cmp={:?}", eq, pc));
+    let (x3, y3) = (x.clone(), y.clone());
+    if let Ok((tc, tcr)) = catch(move || (x3.cmp(&y3), y3.cmp(&x3))) {
+        chk(out, pc == Some(tc), &format!("partial_cmp_differs_from_cmp_{}", tname), c, &format!("partial_cmp {:?} cmp {}", pc, ord(tc)));
+        chk(out, tc == tcr.reverse(), &format!("cmp_antisym_{}", tname), c, "");
+    }
     let (x2, y2) = (x.clone(), y.clone());
     match catch(move || (feed(&x2), feed(&y2))) {
         Err(e) => chk(out, false, &format!("rdata_hash_panic_{}", tname), c, &e),
@@ -740,7 +859,12 @@ fn record_cases(out: &mut Out, r: &mut Rng, n: u64) {
             // canonical_cmp disagrees with their canonical form are reported by rdata_pair.
             chk(out, cc == x.canonical_cmp(&y), "record_rrset_order_rfc4034_6_3", &c, "");
         }
-        let _ = pc;
+        {
+            let (ra2, rb2) = (ra.clone(), rb.clone());
+            // (a disagreement inside the record data is reported by rdata_pair under its own type)
+            let data_ok = { let (x2, y2) = (x.clone(), y.clone()); catch(move || x2.partial_cmp(&y2) == Some(x2.cmp(&y2))).unwrap_or(false) };
+            if data_ok { if let Ok(tc) = catch(move || ra2.cmp(&rb2)) { chk(out, pc == Some(tc), "partial_cmp_differs_from_cmp_record", &c, &format!("{:?} vs {}", pc, ord(tc))); } }
+        }
         // header
         let (h1, h2) = (RecordHeader::new(flat(&oa), Rtype::from_int(rt), Class::from_int(ca), Ttl::from_secs(ta), wx.len() as u16),
                         RecordHeader::new(flat(&ob), Rtype::from_int(rtb), Class::from_int(cb), Ttl::from_secs(tb), wy.len() as u16));
@@ -941,6 +1065,7 @@ fn main() {
     let k = if a.thorough { 10 } else { 1 } * a.scale;
     label_cases(&mut out, &mut r, 3000 * k);
     name_cases(&mut out, &mut r, 6000 * k);
+    suffix_cases(&mut out, &mut r, 700 * k);
     charstr_cases(&mut out, &mut r, 2500 * k);
     nsec_cases(&mut out, &mut r, 600 * k);
     svcb_cases(&mut out, &mut r, 600 * k);
